@@ -168,9 +168,9 @@ impl Check for C02 {
     }
     fn cases(&self, thorough: bool) -> usize {
         if thorough {
-            100_000
+            60_000
         } else {
-            2_000
+            2_500
         }
     }
     fn fixed_cases(&self, _thorough: bool) -> Vec<Case> {
@@ -442,9 +442,9 @@ impl Check for C03 {
     }
     fn cases(&self, thorough: bool) -> usize {
         if thorough {
-            100_000
+            60_000
         } else {
-            2_000
+            2_500
         }
     }
     fn fixed_cases(&self, _thorough: bool) -> Vec<Case> {
